@@ -1355,6 +1355,15 @@ pub fn draw_op(rng: &mut Rng, r: &Regs, f32w: bool) -> Op {
                     stds[g] = f32f(rng.logu(1e-2, 1e2));
                 }
             }
+            // a divisor of exactly zero (what std() reports for a constant lane or a single row): the value is
+            // left open by the model, but every backend has to treat such a lane the same way
+            if rng.bool(0.12) {
+                let g = rng.below(groups);
+                stds[g] = 0.0;
+                if rng.bool(0.5) {
+                    means[g] = if axis == 0 { ma.at(0, g) } else { ma.at(g, 0) };
+                }
+            }
             Op::Scale(a, axis, means, stds)
         }
         32 => Op::Cov(a),
